@@ -126,6 +126,13 @@ def record_fick(data, want=("steps", "dec", "chk", "trace")):
             res = an.check_safety(p3)
             c["ok"] = True
             c["sev"] = sevnum(an, res.severity)
+            # the same object is analysed again, also after its summaries were looked at: every verdict it hands out is a
+            # verdict for these bytes, and the lowest one is what the floor is compared with
+            again = an.check_safety(p3)
+            _ = (p3.has_import, p3.has_call, p3.has_non_setstate_call, list(p3.properties.imports), list(p3.properties.calls),
+                 list(p3.properties.non_setstate_calls))
+            third = an.check_safety(p3)
+            c["sev"] = min(c["sev"], sevnum(an, again.severity), sevnum(an, third.severity))
             c["nfind"] = len(res.results)
             fs = [sevnum(an, getattr(f, "severity", None)) for f in res.results]
             c["find_ok"] = all(x >= 0 for x in fs) and all(isinstance(getattr(f, "message", None), str) for f in res.results)
